@@ -209,6 +209,7 @@ where
                                 only_if_failed: None,
                                 extra_asserts: vec![format!("(assert (or {}))", ds.iter().map(|d| format!("(not (= t{} 0.0))", d.id)).collect::<Vec<_>>().join(" "))],
                                 late_degree: deg,
+                                raw: vec![],
                             }
                         });
                         job.groups.push(g);
